@@ -3,6 +3,9 @@
 // Contracts for package msgpipeline (checked by /verif/govc; comment-only file).
 package msgpipeline
 
+//@ import authres "github.com/emersion/go-msgauth/authres"
+//@ import godmarc "github.com/emersion/go-msgauth/dmarc"
+
 // ---- C16 ----
 // With two or more arguments both codes are the operator's; with at most one argument maddy computes the enhanced code.
 //@ func parseRejectDirective
@@ -17,8 +20,14 @@ package msgpipeline
 //@   ensures result != nil
 
 // ---- C06: merging of check results ----
-// wfRes: a result with a flag set carries a reason (what FailAction.Apply guarantees for results it produced).
-//@ pure func wfRes(r module.CheckResult) bool = (r.Reject || r.Quarantine) ==> r.Reason != nil
+// The verdict accounting (ghost counters gRejectN, gQuarN, gRcptCalls; wfRes) is declared with the CheckState interface
+// in framework/module. A call of the runner passed to runAndMergeResults produces one check result.
+//@ extern func (*checkRunner).runAndMergeResults#runner$call(s module.CheckState) module.CheckResult
+//@   requires cr != nil && cr.checkedRcptsPerCheck != nil
+//@   modifies gRejectN, gQuarN, gRcptCalls, allMaps("map[module.CheckState]map[string]struct{}"), allMaps("map[string]struct{}")
+//@   ensures gRejectN == old(gRejectN) + (result.Reject ? 1 : 0) && gQuarN == old(gQuarN) + (result.Quarantine && !result.Reject ? 1 : 0)
+//@   ensures wfRes(result)
+
 // The two sync.Once values guard the two error slots: once fired, the slot is set.
 //@ func (*checkRunner).runAndMergeResults$1$1
 //@   prop C06
@@ -31,21 +40,202 @@ package msgpipeline
 //@   prop C06
 //@   modifies data.quarantineErr
 //@   ensures data.quarantineErr == subCheckRes.Reason
+//@ pure func slotsOK(rejDone bool, rejErr error, quarDone bool, quarErr error) bool = (rejDone ==> rejErr != nil) && (quarDone ==> quarErr != nil)
 // The goroutine body (one check): a rejecting result sets the reject slot, a quarantining one the quarantine slot,
-// slots are never cleared.
+// slots are never cleared; the merged Quarantine flag is not touched here.
 //@ func (*checkRunner).runAndMergeResults$1
 //@   prop C06
-//@   modifies *
-//@   requires (addrOf(data.setRejectErr).done ==> data.rejectErr != nil) && (addrOf(data.setQuarantineErr).done ==> data.quarantineErr != nil)
-//@   ensures (addrOf(data.setRejectErr).done ==> data.rejectErr != nil) && (addrOf(data.setQuarantineErr).done ==> data.quarantineErr != nil)
+//@   modifies data.rejectErr, data.quarantineErr, data.authResLock, data.headerLock, data.wg, sync.Once.done, checkRunner.mergedRes, allElems("authres.Result")
+//@   modifies gRejectN, gQuarN, gRcptCalls, allMaps("map[module.CheckState]map[string]struct{}"), allMaps("map[string]struct{}")
+//@   requires cr != nil && cr.checkedRcptsPerCheck != nil
+//@   requires slotsOK(addrOf(data.setRejectErr).done, data.rejectErr, addrOf(data.setQuarantineErr).done, data.quarantineErr)
+//@   ensures slotsOK(addrOf(data.setRejectErr).done, data.rejectErr, addrOf(data.setQuarantineErr).done, data.quarantineErr)
 //@   ensures old(data.rejectErr) != nil ==> data.rejectErr != nil
 //@   ensures old(data.quarantineErr) != nil ==> data.quarantineErr != nil
-//@   ensures wfRes(subCheckRes) && subCheckRes.Reject ==> data.rejectErr != nil
-//@   ensures wfRes(subCheckRes) && subCheckRes.Quarantine && !subCheckRes.Reject ==> data.quarantineErr != nil
-// The stage method of a check (called through the captured runner) does not touch the merge bookkeeping of the
-// enclosing runAndMergeResults call (it cannot reach it: the struct is local to that call). Assumed.
-//@ extern func (*checkRunner).runAndMergeResults$1#runner$call(s module.CheckState) module.CheckResult
-//@   modifies *
-//@   ensures data.rejectErr == old(data.rejectErr) && data.quarantineErr == old(data.quarantineErr)
-//@   ensures addrOf(data.setRejectErr).done == old(addrOf(data.setRejectErr).done) && addrOf(data.setQuarantineErr).done == old(addrOf(data.setQuarantineErr).done)
+//@   ensures gRejectN >= old(gRejectN) && gQuarN >= old(gQuarN)
+//@   ensures gRejectN > old(gRejectN) ==> data.rejectErr != nil
+//@   ensures gQuarN > old(gQuarN) ==> data.quarantineErr != nil
+//@   ensures cr.mergedRes.Quarantine == old(cr.mergedRes.Quarantine) && cr.mergedRes.Reject == old(cr.mergedRes.Reject)
+//@   ensures cr.msgMeta == old(cr.msgMeta) && cr.msgMeta.Quarantine == old(cr.msgMeta.Quarantine)
+//@   loop 0 invariant cr.mergedRes.Quarantine == old(cr.mergedRes.Quarantine) && cr.mergedRes.Reject == old(cr.mergedRes.Reject)
+
+// runAndMergeResults: if some check rejected during the call an error is returned; otherwise, if some check
+// quarantined, the merged result carries Quarantine; the flag is never cleared.
+//@ func (*checkRunner).runAndMergeResults
+//@   prop C06
+//@   modifies checkRunner.mergedRes, sync.Once.done, allElems("authres.Result"), gRejectN, gQuarN, gRcptCalls, allMaps("map[module.CheckState]map[string]struct{}"), allMaps("map[string]struct{}")
+//@   requires cr != nil && cr.checkedRcptsPerCheck != nil
+//@   ensures cr.checkedRcptsPerCheck != nil
+//@   ensures gRejectN >= old(gRejectN) && gQuarN >= old(gQuarN)
+//@   ensures gRejectN > old(gRejectN) ==> result != nil
+//@   ensures gQuarN > old(gQuarN) && result == nil ==> cr.mergedRes.Quarantine
+//@   ensures old(cr.mergedRes.Quarantine) ==> cr.mergedRes.Quarantine
+//@   ensures cr.msgMeta == old(cr.msgMeta) && cr.msgMeta.Quarantine == old(cr.msgMeta.Quarantine)
+//@   loop 0 invariant slotsOK(addrOf(data.setRejectErr).done, data.rejectErr, addrOf(data.setQuarantineErr).done, data.quarantineErr)
+//@   loop 0 invariant gRejectN >= old(gRejectN) && gQuarN >= old(gQuarN)
+//@   loop 0 invariant gRejectN > old(gRejectN) ==> data.rejectErr != nil
+//@   loop 0 invariant gQuarN > old(gQuarN) ==> data.quarantineErr != nil
+//@   loop 0 invariant cr.mergedRes.Quarantine == old(cr.mergedRes.Quarantine) && cr.checkedRcptsPerCheck != nil
+//@   loop 0 invariant cr.msgMeta == old(cr.msgMeta) && cr.msgMeta.Quarantine == old(cr.msgMeta.Quarantine)
+
+// ---- C06: the runners (one call = one stage of one check) ----
+// Each closure handed to runAndMergeResults returns exactly the result of the stage method it calls (so that the
+// verdict accounting of the $call contract above holds for it), or an empty result without calling the check when
+// the (check state, recipient) pair is already recorded.
+//@ func (*checkRunner).checkStates$2
+//@   prop C06
+//@   modifies gRejectN, gQuarN
+//@   ensures gRejectN == old(gRejectN) + (result.Reject ? 1 : 0) && gQuarN == old(gQuarN) + (result.Quarantine && !result.Reject ? 1 : 0)
 //@   ensures wfRes(result)
+//@   assert-call (module.CheckState).CheckConnection : $s == s
+//@ func (*checkRunner).checkStates$3
+//@   prop C06
+//@   modifies gRejectN, gQuarN
+//@   ensures gRejectN == old(gRejectN) + (result.Reject ? 1 : 0) && gQuarN == old(gQuarN) + (result.Quarantine && !result.Reject ? 1 : 0)
+//@   ensures wfRes(result)
+//@   assert-call (module.CheckState).CheckSender : $s == s && $mailFrom == cr.mailFrom
+//@ func (*checkRunner).checkStates$4
+//@   prop C06
+//@   modifies gRejectN, gQuarN, gRcptCalls, allMaps("map[module.CheckState]map[string]struct{}"), allMaps("map[string]struct{}")
+//@   requires cr != nil && cr.checkedRcptsPerCheck != nil
+//@   ensures gRejectN == old(gRejectN) + (result.Reject ? 1 : 0) && gQuarN == old(gQuarN) + (result.Quarantine && !result.Reject ? 1 : 0)
+//@   ensures wfRes(result)
+//@   ensures old(has(cr.checkedRcptsPerCheck, s) && has(cr.checkedRcptsPerCheck[s], rcpt)) ==> gRcptCalls == old(gRcptCalls)
+//@   ensures !old(has(cr.checkedRcptsPerCheck, s) && has(cr.checkedRcptsPerCheck[s], rcpt)) ==> gRcptCalls == old(gRcptCalls) + 1
+//@   ensures has(cr.checkedRcptsPerCheck, s) && has(cr.checkedRcptsPerCheck[s], rcpt)
+//@   assert-call (module.CheckState).CheckRcpt : $s == s && $rcptTo == rcpt
+//@ func (*checkRunner).checkRcpt$1
+//@   prop C06
+//@   modifies gRejectN, gQuarN, gRcptCalls, allMaps("map[module.CheckState]map[string]struct{}"), allMaps("map[string]struct{}")
+//@   requires cr != nil && cr.checkedRcptsPerCheck != nil
+//@   ensures gRejectN == old(gRejectN) + (result.Reject ? 1 : 0) && gQuarN == old(gQuarN) + (result.Quarantine && !result.Reject ? 1 : 0)
+//@   ensures wfRes(result)
+//@   ensures old(has(cr.checkedRcptsPerCheck, s) && has(cr.checkedRcptsPerCheck[s], rcptTo)) ==> gRcptCalls == old(gRcptCalls)
+//@   ensures !old(has(cr.checkedRcptsPerCheck, s) && has(cr.checkedRcptsPerCheck[s], rcptTo)) ==> gRcptCalls == old(gRcptCalls) + 1
+//@   ensures has(cr.checkedRcptsPerCheck, s) && has(cr.checkedRcptsPerCheck[s], rcptTo)
+//@   assert-call (module.CheckState).CheckRcpt : $s == s && $rcptTo == rcptTo
+//@ func (*checkRunner).checkBody$1
+//@   prop C06
+//@   modifies gRejectN, gQuarN
+//@   ensures gRejectN == old(gRejectN) + (result.Reject ? 1 : 0) && gQuarN == old(gQuarN) + (result.Quarantine && !result.Reject ? 1 : 0)
+//@   ensures wfRes(result)
+//@   assert-call (module.CheckState).CheckBody : $s == s
+
+// objectName only formats a name for log messages (calls Name/InstanceName/String of the module; assumed side-effect free).
+//@ effectfree internal/msgpipeline.objectName
+// ---- C06: stages ----
+//@ pure func runnerOK(cr *checkRunner) bool = cr != nil && cr.checkedRcptsPerCheck != nil && cr.states != nil
+// verdictsHeld: what every stage function guarantees about the checks it ran during the call.
+// (a) a rejecting result makes the stage fail; (b) a quarantining one is recorded in the merged result;
+// (c) the merged Quarantine flag and the message's Quarantine flag are never cleared.
+//@ func (*checkRunner).checkStates
+//@   prop C06
+//@   modifies checkRunner.mergedRes, sync.Once.done, allMaps("map[module.Check]module.CheckState"), allElems("authres.Result"), gRejectN, gQuarN, gRcptCalls, allMaps("map[module.CheckState]map[string]struct{}"), allMaps("map[string]struct{}")
+//@   requires runnerOK(cr)
+//@   ensures runnerOK(cr)
+//@   ensures gRejectN >= old(gRejectN) && gQuarN >= old(gQuarN)
+//@   ensures gRejectN > old(gRejectN) ==> result1 != nil
+//@   ensures gQuarN > old(gQuarN) && result1 == nil ==> cr.mergedRes.Quarantine
+//@   ensures old(cr.mergedRes.Quarantine) ==> cr.mergedRes.Quarantine
+//@   ensures cr.msgMeta == old(cr.msgMeta) && cr.msgMeta.Quarantine == old(cr.msgMeta.Quarantine)
+//@   ensures result1 == nil ==> len(result0) == len(checks)
+//@   loop 0 invariant runnerOK(cr) && gRejectN == old(gRejectN) && gQuarN == old(gQuarN) && cr.mergedRes.Quarantine == old(cr.mergedRes.Quarantine)
+//@   loop 0 invariant cr.msgMeta == old(cr.msgMeta) && cr.msgMeta.Quarantine == old(cr.msgMeta.Quarantine)
+//@   loop 0 invariant len(states) == rangeindex + 1
+//@   loop 1 invariant runnerOK(cr) && gRejectN == old(gRejectN) && gQuarN >= old(gQuarN) && (gQuarN > old(gQuarN) ==> cr.mergedRes.Quarantine) && (old(cr.mergedRes.Quarantine) ==> cr.mergedRes.Quarantine)
+//@   loop 1 invariant cr.msgMeta == old(cr.msgMeta) && cr.msgMeta.Quarantine == old(cr.msgMeta.Quarantine) && len(states) == len(checks)
+//@   loop 2 invariant runnerOK(cr) && gRejectN == old(gRejectN) && gQuarN >= old(gQuarN) && (gQuarN > old(gQuarN) ==> cr.mergedRes.Quarantine) && (old(cr.mergedRes.Quarantine) ==> cr.mergedRes.Quarantine)
+//@   loop 2 invariant cr.msgMeta == old(cr.msgMeta) && cr.msgMeta.Quarantine == old(cr.msgMeta.Quarantine) && len(states) == len(checks)
+//@ func (*checkRunner).checkStates$1
+//@   prop C06
+//@ func (*checkRunner).checkConnSender
+//@   prop C06
+//@   ensures gRejectN >= old(gRejectN) && gQuarN >= old(gQuarN)
+//@   modifies cr.mailFrom, cr.mailFromReceived, checkRunner.mergedRes, sync.Once.done, allMaps("map[module.Check]module.CheckState"), allElems("authres.Result"), gRejectN, gQuarN, gRcptCalls, allMaps("map[module.CheckState]map[string]struct{}"), allMaps("map[string]struct{}")
+//@   requires runnerOK(cr)
+//@   ensures runnerOK(cr)
+//@   ensures gRejectN > old(gRejectN) ==> result != nil
+//@   ensures gQuarN > old(gQuarN) && result == nil ==> cr.mergedRes.Quarantine
+//@   ensures old(cr.mergedRes.Quarantine) ==> cr.mergedRes.Quarantine
+//@   ensures cr.msgMeta == old(cr.msgMeta) && cr.msgMeta.Quarantine == old(cr.msgMeta.Quarantine)
+//@ func (*checkRunner).checkRcpt
+//@   prop C06
+//@   ensures gRejectN >= old(gRejectN) && gQuarN >= old(gQuarN)
+//@   modifies cr.checkedRcpts, checkRunner.mergedRes, sync.Once.done, allMaps("map[module.Check]module.CheckState"), allElems("authres.Result"), gRejectN, gQuarN, gRcptCalls, allMaps("map[module.CheckState]map[string]struct{}"), allMaps("map[string]struct{}")
+//@   requires runnerOK(cr)
+//@   ensures runnerOK(cr)
+//@   ensures gRejectN > old(gRejectN) ==> result != nil
+//@   ensures gQuarN > old(gQuarN) && result == nil ==> cr.mergedRes.Quarantine
+//@   ensures old(cr.mergedRes.Quarantine) ==> cr.mergedRes.Quarantine
+//@   ensures cr.msgMeta == old(cr.msgMeta) && cr.msgMeta.Quarantine == old(cr.msgMeta.Quarantine)
+// gBodyGroups: the check groups (identified by the backing array of their check list) whose body stage ran without an
+// error during the current Body call; gApplied: applyResults ran after the last body-stage group.
+//@ ghost var gBodyGroups Set[int]
+//@ ghost var gApplied bool
+//@ func (*checkRunner).checkBody
+//@   prop C06
+//@   ensures gRejectN >= old(gRejectN) && gQuarN >= old(gQuarN)
+//@   modifies cr.didDMARCFetch, cr.dmarcVerify.fetchCancel, chans(), gBodyGroups, gApplied, checkRunner.mergedRes, sync.Once.done, allMaps("map[module.Check]module.CheckState"), allElems("authres.Result"), gRejectN, gQuarN, gRcptCalls, allMaps("map[module.CheckState]map[string]struct{}"), allMaps("map[string]struct{}")
+//@   requires runnerOK(cr)
+//@   ensures runnerOK(cr)
+//@   ensures gRejectN > old(gRejectN) ==> result != nil
+//@   ensures gQuarN > old(gQuarN) && result == nil ==> cr.mergedRes.Quarantine
+//@   ensures old(cr.mergedRes.Quarantine) ==> cr.mergedRes.Quarantine
+//@   ensures cr.msgMeta == old(cr.msgMeta) && cr.msgMeta.Quarantine == old(cr.msgMeta.Quarantine)
+//@   trusted-ensures result == nil ==> gBodyGroups == store(old(gBodyGroups), arrOf(checks), true)
+//@   trusted-ensures result != nil ==> gBodyGroups == old(gBodyGroups)
+//@   trusted-ensures !gApplied
+
+// applyResults: a merged Quarantine verdict and a DMARC quarantine policy flag the message; a DMARC reject policy
+// fails the message with 550/5.7.1, or 450/4.7.1 when the DMARC verdict is temperror; the flag is never cleared.
+//@ func (*checkRunner).applyResults
+//@   prop C06 C07
+//@   modifies cr.msgMeta.Quarantine, checkRunner.mergedRes, *header, chans(), gDmarcPolicy, gDmarcValue, gApplied, allElems("authres.Result")
+//@   requires cr != nil && cr.msgMeta != nil && cr.dmarcVerify != nil && header != nil
+//@   ensures cr.msgMeta == old(cr.msgMeta)
+//@   ensures old(cr.mergedRes.Quarantine) ==> cr.msgMeta.Quarantine
+//@   ensures old(cr.msgMeta.Quarantine) ==> cr.msgMeta.Quarantine
+//@   ensures cr.doDMARC && gDmarcPolicy == godmarc.PolicyReject ==> result != nil && isType(result, "*exterrors.SMTPError")
+//@   ensures cr.doDMARC && gDmarcPolicy == godmarc.PolicyReject ==> as(result, "*exterrors.SMTPError").Code == (gDmarcValue == authres.ResultTempError ? 450 : 550) && as(result, "*exterrors.SMTPError").EnhancedCode[0] == (gDmarcValue == authres.ResultTempError ? 4 : 5)
+//@   ensures cr.doDMARC && gDmarcPolicy == godmarc.PolicyQuarantine ==> cr.msgMeta.Quarantine
+//@   ensures !cr.doDMARC || gDmarcPolicy != godmarc.PolicyReject ==> result == nil
+//@   trusted-ensures result == nil ==> gApplied
+
+// ---- C06: the body stage of the pipeline ----
+// GenerateReceived only formats a header value from the metadata (reads it, changes nothing; assumed).
+//@ extern func target.GenerateReceived(ctx context.Context, msgMeta *module.MsgMetadata, ourHostname string, mailFrom string) (s string, err error)
+//@ pure func ddOK(dd *msgpipelineDelivery) bool = dd != nil && dd.d != nil && dd.msgMeta != nil && dd.checkRunner != nil && runnerOK(dd.checkRunner) && dd.checkRunner.msgMeta == dd.msgMeta && dd.checkRunner.dmarcVerify != nil && dd.globalModifiersState != nil && dd.sourceModifiersState != nil
+// allGroupsChecked: the body stage of the global, the source and every destination block's checks ran (without a
+// rejection) and the merged results were applied afterwards.
+//@ pure func allGroupsChecked(dd *msgpipelineDelivery) bool = gApplied && gBodyGroups[arrOf(dd.d.globalChecks)] && gBodyGroups[arrOf(dd.sourceBlock.checks)] && (forall b *rcptBlock :: has(dd.rcptModifiersState, b) ==> gBodyGroups[arrOf(b.checks)])
+// Every target receives the body only after all applicable checks saw it and their verdicts were applied: no check
+// rejected during this call, and a quarantine verdict (from this call or recorded earlier in the merged result) has
+// set the message's Quarantine flag.
+//@ func (*msgpipelineDelivery).Body
+//@   prop C06
+//@   modifies *
+//@   requires ddOK(dd)
+//@   ensures gRejectN > old(gRejectN) ==> result != nil
+//@   ensures old(dd.msgMeta.Quarantine) ==> dd.msgMeta.Quarantine
+//@   assert-call (module.Delivery).Body : allGroupsChecked(dd) && gRejectN == old(gRejectN)
+//@   assert-call (module.Delivery).Body : (gQuarN > old(gQuarN) || old(dd.checkRunner.mergedRes.Quarantine) || old(dd.msgMeta.Quarantine)) ==> dd.msgMeta.Quarantine
+//@   loop 0 invariant ddOK(dd) && gRejectN == old(gRejectN) && gQuarN >= old(gQuarN) && (gQuarN > old(gQuarN) || old(dd.checkRunner.mergedRes.Quarantine) ==> dd.checkRunner.mergedRes.Quarantine) && (old(dd.msgMeta.Quarantine) ==> dd.msgMeta.Quarantine)
+//@   loop 0 invariant gBodyGroups[arrOf(dd.d.globalChecks)] && gBodyGroups[arrOf(dd.sourceBlock.checks)] && (forall b *rcptBlock :: iterpos()[b] ==> gBodyGroups[arrOf(b.checks)])
+//@   loop 1 invariant ddOK(dd) && allGroupsChecked(dd) && gRejectN == old(gRejectN) && ((gQuarN > old(gQuarN) || old(dd.checkRunner.mergedRes.Quarantine) || old(dd.msgMeta.Quarantine)) ==> dd.msgMeta.Quarantine)
+//@   loop 2 invariant ddOK(dd) && allGroupsChecked(dd) && gRejectN == old(gRejectN) && ((gQuarN > old(gQuarN) || old(dd.checkRunner.mergedRes.Quarantine) || old(dd.msgMeta.Quarantine)) ==> dd.msgMeta.Quarantine)
+// The LMTP / per-recipient path is held to the same protocol.
+//@ func (*msgpipelineDelivery).BodyNonAtomic
+//@   prop C06
+//@   modifies *
+//@   requires ddOK(dd)
+//@   ensures old(dd.msgMeta.Quarantine) ==> dd.msgMeta.Quarantine
+//@   assert-call (module.Delivery).Body : allGroupsChecked(dd) && gRejectN == old(gRejectN)
+//@   assert-call (module.Delivery).Body : (gQuarN > old(gQuarN) || old(dd.checkRunner.mergedRes.Quarantine) || old(dd.msgMeta.Quarantine)) ==> dd.msgMeta.Quarantine
+//@   assert-call (module.PartialDelivery).BodyNonAtomic : allGroupsChecked(dd) && gRejectN == old(gRejectN)
+//@   assert-call (module.PartialDelivery).BodyNonAtomic : (gQuarN > old(gQuarN) || old(dd.checkRunner.mergedRes.Quarantine) || old(dd.msgMeta.Quarantine)) ==> dd.msgMeta.Quarantine
+//@   loop 0 invariant ddOK(dd) && gRejectN == old(gRejectN) && gQuarN >= old(gQuarN) && (gQuarN > old(gQuarN) || old(dd.checkRunner.mergedRes.Quarantine) ==> dd.checkRunner.mergedRes.Quarantine) && (old(dd.msgMeta.Quarantine) ==> dd.msgMeta.Quarantine)
+//@   loop 0 invariant gBodyGroups[arrOf(dd.d.globalChecks)] && gBodyGroups[arrOf(dd.sourceBlock.checks)] && (forall b *rcptBlock :: iterpos()[b] ==> gBodyGroups[arrOf(b.checks)])
+//@   loop 1 invariant ddOK(dd) && allGroupsChecked(dd) && gRejectN == old(gRejectN) && ((gQuarN > old(gQuarN) || old(dd.checkRunner.mergedRes.Quarantine) || old(dd.msgMeta.Quarantine)) ==> dd.msgMeta.Quarantine)
+//@   loop 2 invariant ddOK(dd) && allGroupsChecked(dd) && gRejectN == old(gRejectN) && ((gQuarN > old(gQuarN) || old(dd.checkRunner.mergedRes.Quarantine) || old(dd.msgMeta.Quarantine)) ==> dd.msgMeta.Quarantine)
+//@ func (*msgpipelineDelivery).BodyNonAtomic$1
+//@   prop C06
